@@ -572,6 +572,10 @@ func (c *SuperCfg) determinismCheck(a *agg, def *PropDef) int {
 		n++
 		plan := def.Gen(def, c.Tier, runSeed(c.Seed, run), run)
 		r, stderr, code := c.execPlan(c.Bin, plan, fmt.Sprintf("det%d", run), 300*time.Second)
+		if r == nil && code == -9 {
+			fmt.Printf("WARNING: determinism re-execution of run %d did not finish within 300 s (loaded machine?), skipped\n", run)
+			continue
+		}
 		if r == nil {
 			fmt.Fprintf(os.Stderr, "INFRA-ERROR: determinism re-execution of run %d failed (exit %d): %s\n", run, code, tail(stderr, 1000))
 			return 2
